@@ -76,6 +76,7 @@ type Gen struct {
 	writes   map[*ssa.BasicBlock]map[string]bool
 	lwrites  map[*ssa.BasicBlock]map[*ssa.Alloc]bool
 	starW    map[*ssa.BasicBlock]bool
+	partialStar map[*ssa.BasicBlock]bool
 	pass     int
 	nfresh   int
 	prefix   string
@@ -95,12 +96,15 @@ type Gen struct {
 	inlineDepth int
 	quiet       bool // inline mode: no obligations
 	nbound      int
+	compType    map[string]types.Type // leaf Go type of O: components
+	typed       map[*Term]bool
 	heapClk     map[*Term]*Term // heap component version -> clock when it was written
 	freshRefs   map[*Term]bool  // objects allocated by this function that have not escaped yet
 	quietEpoch  bool            // the current write goes to a non-escaped fresh object
 	mergeCases  map[*Term][]*mergeCase // reach constant of a join block -> incoming cases
 	callOrd     map[string]int
 	usedCallAssumes map[*Clause]bool
+	preCallOrd  map[string]int
 	sentinels   map[*Term]bool
 	defers      []deferred
 	retVals     []retPoint
@@ -134,6 +138,7 @@ func NewGen(p *Program, fn *ssa.Function, c *Contract) *Gen {
 	g.writes = map[*ssa.BasicBlock]map[string]bool{}
 	g.lwrites = map[*ssa.BasicBlock]map[*ssa.Alloc]bool{}
 	g.starW = map[*ssa.BasicBlock]bool{}
+	g.partialStar = map[*ssa.BasicBlock]bool{}
 	return g
 }
 
@@ -155,9 +160,14 @@ func (g *Gen) reset() {
 	g.defers = nil
 	g.callOrd = map[string]int{}
 	g.heapClk = map[*Term]*Term{}
+	g.typed = map[*Term]bool{}
+	if g.compType == nil {
+		g.compType = map[string]types.Type{}
+	}
 	g.freshRefs = map[*Term]bool{}
 	g.mergeCases = map[*Term][]*mergeCase{}
 	g.usedCallAssumes = map[*Clause]bool{}
+	g.preCallOrd = map[string]int{}
 	g.sentinels = nil
 	g.retVals = nil
 	g.frameIdx = nil
@@ -253,8 +263,26 @@ func (g *Gen) compName(a *Addr, lf leaf) string {
 	panic("compName: local")
 }
 
+// typeAxiom: every cell of an integer-typed heap component holds a value of its
+// Go type (stated once per fresh array constant; instantiated at exact reads).
+func (g *Gen) typeAxiom(name string, arr *Term) {
+	ty, ok := g.compType[name]
+	if !ok || arr.Op != "const" || g.typed[arr] {
+		return
+	}
+	g.typed[arr] = true
+	if _, _, isInt := intRange(ty); !isInt {
+		return
+	}
+	g.nbound++
+	r := BoundVar(fmt.Sprintf("r!%d", g.nbound), SInt)
+	_ = r
+	// (the range facts are added per ground read when the query is built: typeGroundReads)
+}
+
 func (g *Gen) heapGet(st *State, name string, s *Sort) *Term {
 	if t, ok := st.Heap[name]; ok {
+		g.typeAxiom(name, t)
 		return t
 	}
 	if _, ok := g.universe[name]; !ok {
@@ -305,13 +333,34 @@ func (g *Gen) recordLocalWrite(a *ssa.Alloc) {
 }
 
 // havocAll gives every heap component a fresh value (unknown callee / external).
-func (g *Gen) havocAll(st *State, why string) {
+func (g *Gen) havocAll(st *State, why string) { g.havocAllExcept(st, why, nil) }
+
+// havocAllExcept: everything may change except the components for which keep
+// returns true (a callee's preserves fields(T) clause).
+func (g *Gen) havocAllExcept(st *State, why string, keep func(string) bool) {
 	if g.curBlock != nil {
-		g.starW[g.curBlock] = true
+		if keep == nil {
+			g.starW[g.curBlock] = true
+		} else {
+			m := g.writes[g.curBlock]
+			if m == nil {
+				m = map[string]bool{}
+				g.writes[g.curBlock] = m
+			}
+			for _, n := range g.uniOrder {
+				if !keep(n) {
+					m[n] = true
+				}
+			}
+			g.partialStar[g.curBlock] = true
+		}
 	}
 	names := append([]string{}, g.uniOrder...)
 	for _, n := range names {
 		if strings.HasPrefix(n, "G:") && g.immutableGlobalComp(n) {
+			continue
+		}
+		if keep != nil && keep(n) {
 			continue
 		}
 		st.Heap[n] = g.fresh("hv:"+n, g.universe[n])
@@ -376,6 +425,9 @@ func (g *Gen) load(st *State, a *Addr, ty types.Type) Val {
 	var verClk *Term
 	v := buildVal(ty, func(lf leaf) *Term {
 		name := g.compName(a, lf)
+		if a.Root == RObj {
+			g.compType[name] = lf.Ty
+		}
 		var h *Term
 		var r *Term
 		switch a.Root {
@@ -785,6 +837,19 @@ func (g *Gen) runOnce() error {
 			g.assume(Ne(v.T, IntLit(0)))
 		}
 	}
+	// global axioms about ghost functions (trusted; listed in evidence)
+	if !g.quiet {
+		for _, ax := range g.P.Axioms {
+			sca := g.specCtxVars(st, st, map[string]Val{})
+			t, err := sca.boolTerm(ax.E)
+			if err != nil {
+				g.BindErrs = append(g.BindErrs, fmt.Sprintf("axiom %q: %v", ax.Text, err))
+				continue
+			}
+			g.assume(t)
+			g.Assumed["axiom "+ax.Text] = true
+		}
+	}
 	// preconditions
 	if g.C != nil {
 		sc := g.specCtx(st, st, nil)
@@ -815,6 +880,11 @@ func (g *Gen) runOnce() error {
 		for _, cl := range g.C.CallAssumes {
 			if !g.usedCallAssumes[cl] {
 				g.BindErrs = append(g.BindErrs, fmt.Sprintf("assume %q does not bind to any call site", cl.Text))
+			}
+		}
+		for _, cl := range g.C.CallAsserts {
+			if !g.usedCallAssumes[cl] {
+				g.BindErrs = append(g.BindErrs, fmt.Sprintf("assert %q does not bind to any call site", cl.Text))
 			}
 		}
 	}
